@@ -33,6 +33,7 @@ type advScenario struct {
 	Horizon     int64 // ns after t0
 	ReinitAt    int64 // > 0: a link event reinitializes the advertiser at this instant (ns after t0)
 	Burst       bool  // deliver all events back to back on one P: the request channel really fills
+	Flips       bool  // forwarding is flipped before every other solicitation
 	Tags        []string
 }
 
@@ -64,6 +65,7 @@ func runAdvScenario(t *testing.T, sc advScenario) []verifh.Case {
 				metricVal(v.mm, "corerad_advertiser_router_advertisements_total", "interface=v0,type=multicast"),
 				metricVal(v.mm, "corerad_advertiser_messages_received_total", "interface=v0,message=router solicitation")
 		}
+		fwd := true
 		t00 := vNow()
 		cancel, done := v.run()
 		start := time.Now()
@@ -88,6 +90,12 @@ func runAdvScenario(t *testing.T, sc advScenario) []verifh.Case {
 				cur = advIncarnation{t0: vNow(), seed: time.Now().UnixNano()}
 			}
 			time.Sleep(time.Until(start.Add(time.Duration(e.At))))
+			if sc.Flips && len(cur.events)%2 == 0 {
+				// forwarding is switched off / on under the running advertiser: what the RAs say changes, when and where
+				// they go does not
+				fwd = !fwd
+				v.state.setForwarding("v0", fwd)
+			}
 			v.cur().readC <- rs(e.Src)
 			cur.events = append(cur.events, e)
 			if !sc.Burst {
@@ -267,8 +275,12 @@ func TestVerifAdvRun(t *testing.T) {
 		}
 		uo := r.Chance(20)
 		tags := []string{"stream:random", fmt.Sprintf("unicast_only:%v", uo)}
+		flips := k%3 == 1
+		if flips {
+			tags = append(tags, "forwarding-flips")
+		}
 		emit(advScenario{ID: fmt.Sprintf("rand-%d", k), UnicastOnly: uo, Min: iv[0], Max: iv[1],
-			Offset: r.Int63n(86400e9), Events: evs, Horizon: hz, Tags: tags})
+			Offset: r.Int63n(86400e9), Events: evs, Horizon: hz, Tags: tags, Flips: flips})
 	}
 	// (c) floods: more solicitations in one instant than the request channel holds
 	for k := 0; k < 6; k++ {
